@@ -210,8 +210,21 @@ def _scan(case):
                 break
         back = dict(back)
         back[ext] = "EXT0"
+    # an external library whose name is module_path's dotted name with the dots replaced by underscores (`proj_src` next to the
+    # internal prefix `proj.src`), excluded by an external exclusion pattern: it shares no dotted component with the internal
+    # modules, so the pattern applies to it and it must not be part of the architecture
+    joined = rn(mp).replace("/", "_")
+    extra_excl = ()
+    if mp != "c0" and re.fullmatch(r"[A-Za-z_]\w*", joined) and joined not in r.values():
+        for q in sorted(t2):
+            if q.endswith(".py") and q.startswith(rn(mp) + "/"):
+                t2[q] += f"import {joined}.helpers\nimport {joined}\n"
+                back = dict(back)
+                back[joined] = "EXTJ"
+                extra_excl = (joined,)
+                break
     with sc.write_project(t2) as proj:
-        out = sc.real_scan(proj, root, rn(mp), exclude_external_libraries=False, external_exclusions=(rn("c0.c1") + "x",))
+        out = sc.real_scan(proj, root, rn(mp), exclude_external_libraries=False, external_exclusions=(rn("c0.c1") + "x",) + extra_excl)
     snap = sc.parse_snapshot(out)
     if snap is None:
         return out
@@ -246,7 +259,13 @@ def judge_scans(ctx, stream, n):
         stream.evaluations += 1
         if has_prefix_clash([ren(sc.module_of(p), r2) for p in tree]):
             stream.nontrivial.add(digest((sorted(tree), mp, sorted(r2.items()))))
-        if o1 != o2:
+        leaked = [o for o in (o1, o2) if isinstance(o, tuple) and any(n.split(".")[0] == "EXTJ" for n in o[0])]
+        if leaked:
+            ctx.violations.append({"kind": "property-violation", "what": "an external library that differs from the internal prefix only in the separator (a_b next to a.b) is treated as internal: its exclusion pattern is not applied",
+                                   "files": dict(tree), "module_path": mp, "renaming": r2, "scan": leaked[0]})
+            if len(ctx.violations) >= 3:
+                return
+        elif o1 != o2:
             ctx.violations.append({"kind": "property-violation", "what": "scan (internal/external classification) is not invariant under renaming of path components",
                                    "files": dict(tree), "module_path": mp, "renaming": r2, "collision_free": o1, "adversarial": o2})
             if len(ctx.violations) >= 3:
